@@ -43,7 +43,8 @@ def main():
         sys.exit(mod.replay(ctx, a.replay))
     state = {"binfo": binfo, "level": getattr(mod, "LEVEL", "proof"), "trusted": getattr(mod, "TRUSTED", ())}
     common.start_watchdog(ctx, state)
-    props_res = common.check_props(pid, thorough=(tier == "thorough"))
+    # (development only: VERIF_DEV_NOPROPS=1 skips the proof step when another process is rebuilding the Coq project)
+    props_res = None if os.environ.get("VERIF_DEV_NOPROPS") else common.check_props(pid, thorough=(tier == "thorough"))
     state["props_res"] = props_res
     try:
         mod.run(ctx)
